@@ -11,13 +11,13 @@ CLAIMED = {
             'Static: every noexcept frame / destructor of the program (all 48 units, executor and parallel build) is proved free of '
             'input-dependent throwing paths; every character-reading loop of the lexer is proved to leave the loop when the input ends. '
             'Decides the "terminates the process / hangs on bad input" clauses structurally at every site; it does not decide assertion '
-            'trips, general memory safety or search termination.',
+            'trips, general memory safety or search termination. A syntax-tree node pointer handed to an owner in the parser is re-assigned before it is handed over again (no double delete at teardown).',
             'Trusts clang 14 name/overload resolution and the source tables of throwing std functions and partial name look-ups listed in orv/cg.py.',
             'DESIGN.md 4 C18'),
     'C08': ('undo-log typestate over stores to backtrackable state (who-may-write table, save-before-write with same key and current value, first-write-wins, overwrite-restore, push/pop pairing)',
             'Static: every store to a backtrackable location (LRA bounds, DL distances / predecessors / responsible constraints, SAT trail vectors, flaw set and costs) in every '
             'function of the program obeys the undo-log discipline on every path; pop() restores every undo map by assignment and removes one layer. Decides the structural '
-            'necessary conditions of "undo restores exactly"; equality of all observables on arbitrary histories is not decided.',
+            'necessary conditions of "undo restores exactly"; equality of all observables on arbitrary histories is not decided. The already-saved test looks up the key of the save; solver::pop restores the agenda exactly.',
             'Trusts the frozen table of backtrackable fields and their reviewed writers in orv/rules/C08.py.', 'DESIGN.md 4 C08'),
     'C10': ('IDL/RDL sibling comparison of normalised path sets + decision-table and explanation-walk typestate of the DL propagation code',
             'Static: the two difference-logic theories agree method by method under the type map; the assertion/negation table of propagate(lit), the overwrite of the '
@@ -27,12 +27,12 @@ CLAIMED = {
     'C12': ('decision-table extraction of the relation builders checked against the algebraically derived table; IDL/RDL sibling comparison of the queries; sign-of-coefficient dataflow in bounds(lin)',
             'Static, exhaustive over the finite table: all 2 theories x 5 relations x arities 0/1/2 x sign cells return the distance constraint that the algebra of c*x + k ~ 0 dictates '
             '(from, to, constant sign, strictness), with the normalising division, the difference-form and integrality guards; sibling agreement of bounds/distance/equates/lb/ub; '
-            'bounds(c*x) respects the sign of c. The sign conventions of distance(lin,lin)/equates are not decided (DESIGN 4 C12).',
+            'bounds(c*x) respects the sign of c. The sign conventions of distance(lin,lin)/equates are not decided (DESIGN 4 C12). The negation table of propagate(lit) (meaning of a false relation literal) is evaluated here too.',
             'Trusts the meaning of new_distance(from,to,d) as to - from <= d (checked by C10.R2).', 'DESIGN.md 4 C12'),
     'C13': ('clause-schema extraction of the reified constructors compared with the Tseitin specification; freshness of the defined literal; decision table of the root shortcuts; cache-key dataflow',
             'Static, exhaustive over the finite specification: the set of clause schemas posted by new_eq/new_conj/new_disj/new_at_most_one (pairwise and product grid)/new_exct_one equals the '
             'Tseitin definition; the defined literal is fresh; the 9 root-value cells of new_eq; cache tag/key/lookup/store discipline; routing from core. The root-true arms of the cardinality '
-            'constructs and the grid arithmetic are not decided.',
+            'constructs and the grid arithmetic are not decided. The product grid has a cell for every literal (columns = ceil(n / rows)).',
             'Trusts the Tseitin specification written in orv/rules/C13.py; clause order and local names are irrelevant (roles are found structurally).', 'DESIGN.md 4 C13'),
     'C14': ('clause-schema and decision-table extraction of ov_theory; who-may-call rule for the waived exactly-one with delegation check along the call path',
             'Static: new_var binds a fresh literal per value and posts the exactly-one unit clause exactly when asked; new_eq posts exactly the clauses that make the literal mean '
@@ -62,48 +62,49 @@ CLAIMED = {
     'C03': ('clause-schema extraction of the causal encoding (flaw expansion, resolvers, unification, activation), CFG typestate of the ni bracketing, traversal-sibling comparison of atom::new_eq/equates, polarity-dispatch rule',
             'Static: an active flaw forces one of its resolvers (exactly one for atom / bool / var flaws), a resolver implies its flaw; the unification resolver carries !sigma, sigma(target) and the field-complete equality, '
             'skips causally later / unified / non-equating targets and is causally linked; activation posts sigma and applies the inherited rules under the right controlling literal; every flaw is ordered strictly after its '
-            'causes; activation events are dispatched on the literal, not the variable. That search finds a justification is not decided.',
+            'causes; activation events are dispatched on the literal, not the variable. That search finds a justification is not decided. synthetic fields are only the this / return pseudo-variables; predicate::apply_rule reaches the inherited rules unconditionally; solver::pop restores the agenda exactly.',
             'Trusts C13 (new_conj), C10/C12 (IDL distances) and C14 for the literals used.', 'DESIGN.md 4 C03'),
     'C01': ('CFG reachability of solver::solve per build configuration (solution gate), must-use-result analysis of every consistency-reporting call of the program, clause-schema and who-may-write rules for asserted facts, routing tables of the exposed values',
             'Static: in every heuristic / inconsistency-checking / listener configuration (2 quick, +32 thorough) success is only reachable through the inconsistency check after the last decision and an empty agenda; no '
             'call site in the program drops a reported inconsistency (5 reasoned exceptions); facts are posted exactly as {!ni, fact}; values are read from the theory that owns them. '
-            'That the model values satisfy the constraints rests on C07-C15 and is not decided here.',
+            'The derived variable of a field read through an object variable keeps the hull of its candidates. The check also evaluates the rule packs of the properties it rests on '
+            '(C07, C09-C17: SAT core, theories, relation literals, arithmetic, language front end), so a structural violation there is reported here too. That the model values numerically satisfy the constraints is not decided.',
             'Trusts the list of consistency-reporting functions in orv/rules/C01.py (MUST_CHECK).', 'DESIGN.md 4 C01'),
     'C02': ('control-dependence analysis of every planner-exception throw on a failed consistency call; vector-builder summary of the learnt no-good; gamma-guard clause schemas; ordering facts of conflict analysis',
             'Static: the problem is declared unsolvable / inconsistent only where a consistency call failed (8 frozen, reasoned sites); the clause learnt from a forced inconsistency choice is exactly {choice} + negated decisions; '
             'graph pruning clauses carry !gamma and gamma is renewed only when false; theory conflicts are analysed over their own literals after back-jumping to their highest level. '
-            'Soundness of first-UIP analysis and of theory explanations on arbitrary histories is not decided (C07/C09/C10 decide their structural parts).',
+            'Soundness of first-UIP analysis and of theory explanations on arbitrary histories is not decided (C07/C09/C10 decide their structural parts). Graph-exhaustion throws are only allowed while expansion is required (any_of active flaws / all_of frontier with infinite cost). The check also evaluates the rule packs of C07, C09-C17 (an encoding stronger than what was written makes solvable problems unsolvable).',
             'The frozen throw sites are named with a reason in orv/rules/C02.py.', 'DESIGN.md 4 C02'),
     'C04': ('solution-gate CFG rule + structural rules of the state-variable checker: peak test, unconditional per-pair reporting, canonical-expression check of the ordering literals, sweep sibling agreement, listener exhaustiveness',
             'Static: a plan is only reported after the timeline check that follows the last decision; the check considers exactly the active atoms, treats two overlapping atoms as a peak, reports every overlapping pair '
             '(also with no choice left), offers both orderings; the ordering literal leqs[X][Y] is end(X) <= start(Y) at all 8 stores; checker and timeline extractor sweep alike; listeners cover every parameter kind. '
-            'Completeness of the to_check bookkeeping on arbitrary histories is not decided.',
+            'Completeness of the to_check bookkeeping on arbitrary histories is not decided. solver::new_atom reaches every smart type among all transitive supertypes; the re-check set only grows.',
             'Rests on C01.R1/R2 (gate) and C11 (meaning of new_leq).', 'DESIGN.md 4 C04'),
     'C05': ('solution-gate CFG rule + structural rules of the reusable-resource checker: unconditional usage accumulation over all overlapping atoms, strict peak test against the instance capacity, MCS window, no-unification clause, synthetic constraints, ordering literals',
             'Static: usage is the sum of the amounts of all active overlapping Use atoms, compared strictly with the capacity of that instance; every minimal conflict set found is reported unconditionally; '
             'the extracted timeline accumulates the same way; Use atoms are never unified; capacity >= 0 and amount >= 0 are part of the synthetic constructor / predicate; ordering literals as in C04. '
-            'Optimality of the MCS enumeration is not decided.',
+            'Optimality of the MCS enumeration is not decided. solver::new_atom reaches every smart type among all transitive supertypes; the re-check set only grows.',
             'Rests on C01.R1/R2 (gate) and C11.', 'DESIGN.md 4 C05'),
     'C06': ('linear-atom normalisation of the configured INIT_STRING (LA and DL forms) against the required temporal constraints; CFG typestate of the fact arm of every smart type (set_ni / apply_rule / restore_ni); who-must-call rule for rule application',
             'Static: the temporal rule the build actually configures contains origin <= start <= end <= horizon, duration = end - start >= 0 (LA) / the DL form, and origin <= at <= horizon, for any re-ordering or superset; '
             'every path that activates an atom of a smart type or a goal applies the rule exactly once under the atom\'s sigma, inherited rules first; the synthetic predicates are Intervals. '
-            'One known finding: facts on plain predicates (design decision of oRatio). Numeric satisfaction is C01/C09.',
+            'One known finding: facts on plain predicates (design decision of oRatio). Numeric satisfaction is C01/C09. solver::new_atom reaches every smart type among all transitive supertypes; predicate::apply_rule reaches the inherited rules unconditionally.',
             'The required atoms are written in orv/rules/C06.py; the DL form is read from a configure-only run because that configuration does not compile at the pinned commit.', 'DESIGN.md 4 C06'),
     'C16': ('character-path (trie) extraction of lexer::next against a keyword/punctuation oracle; symbol production/consumption cross-check; FIRST sets by abstract interpretation of the parser over the 48 token kinds; CFG typestate of the current token; '
             'precedence-table extraction; routing-chain check lexeme -> symbol -> factory -> node -> core operation',
             'Static: every keyword / operator lexeme produces the symbol the language assigns to it and nothing else does; every symbol the parser consumes is produced; no dispatch point rejects a token kind that the non-terminal it serves accepts '
             '(one-token look-ahead), no non-terminal is called on a token it rejects, no token is consumed or down-cast unexamined; the precedence levels and node kinds of all 17 operators; all 41 node factories are overridden by the '
-            'evaluable node of the same name; every node evaluates all operands in order with the core operation of its name. Two-token look-ahead (method declarations with primitive return type, call statements) and exactness of evaluated values beyond C15 are not decided.',
+            'evaluable node of the same name; every node evaluates all operands in order with the core operation of its name. Two-token look-ahead (method declarations with primitive return type, call statements) and exactness of evaluated values beyond C15 are not decided. Block comments and string literals are scanned by the automata of the language (extracted from the CFG over character classes, compared with the reference DFA); a speculative look-ahead never raises the syntax error itself; the last hop core::<rel> -> theory constructor and the arithmetic of C15 are evaluated here too.',
             'The punctuation table is frozen from the RIDDLE grammar in orv/rules/C16.py; keyword lexemes are derived from the enumerator names.', 'DESIGN.md 4 C16'),
     'C17': ('traversal-completeness rules (breadth-first visit of all supertypes / included enums, no filter, no early exit), CFG ordering of the constructor phases, clause schemas of field access through object variables, sibling agreement of new_eq/equates',
             'Static: instances, atoms and predicates are registered with every transitive supertype; existential variables range over all instances, enum variables over declared plus included values; constructors run supertypes, initialiser list, '
             'defaults of unset fields and body in this order; a field read through an object variable is a derived variable tied to the field of every possible value, with mutually exclusive value groups; '
-            'non-assignable values of a formula argument are excluded; new_eq and equates analyse the same cases. Which instance a solution picks is not decided.',
+            'non-assignable values of a formula argument are excluded; new_eq and equates analyse the same cases. Which instance a solution picks is not decided. The per-value subtype test of formula arguments has the right direction and every written argument is stored in the atom.',
             'Rests on C14 (object variables) and C13 (disjunction) for the literals used.', 'DESIGN.md 4 C17'),
     'C19': ('path rules over the CFG of executor::tick with a product construction (conditional constant propagation of the delay flag, correlated look-ups, announcement markers); error-discipline, filter and clause-schema rules of the executor',
             'Static (BUILD_EXECUTOR=ON configuration): time advances exactly once per tick and outside the loop; in every iteration starting precedes start, ending precedes end; once an atom was delayed neither start / end nor the pulse erase is '
             'reachable and the iteration restarts only after propagate() and solve(); the due pulse is erased once, last; every failed bound assertion is analysed or reported; constants cannot be delayed; '
-            'build_timelines keeps active, non-past atoms; adaptation clause {!sigma, !xi, sigma_xi}. Validity of the adapted plan (C01 on the re-solved problem) and exactly-once over a whole history are not decided.',
+            'build_timelines keeps active, non-past atoms; adaptation clause {!sigma, !xi, sigma_xi}. Validity of the adapted plan (C01 on the re-solved problem) and exactly-once over a whole history are not decided. The bounds stored for re-imposition after a back-jump equal the bounds imposed when an atom is delayed, started or ended.',
             'Analysed in configuration F only (the executor is not part of the pinned build).', 'DESIGN.md 4 C19'),
     'C20': ('structural comparison of the PARALLELIZE build with the sequential build (function inventory, task body == sequential loop body modulo lock_guard), RAII lockset analysis of the task, capture / store privacy rules, CFG must-pass of join(), mutex-sizing pairing, monitor protocol of thread_pool',
             'Static (PARALLELIZE=ON configurations P_par and F against the pinned P): the only code that differs between the builds is pivot / new_var / the copy constructor and the pool; each pivot task executes exactly the statements of the sequential row update; '
